@@ -1,5 +1,5 @@
 #!/usr/bin/env python3
-"""C11 (A,B,C): the real semaphore and notify-list code of sema_llgo.go (copied from the working tree at check time) under the
+"""C11 (A,B,C,D): the real semaphore and notify-list code of sema_llgo.go (copied from the working tree at check time) under the
 controlled scheduler; every terminal state must be reachable in the reference semaphore / ticket specification."""
 import argparse, json, os, sys, subprocess
 sys.path.insert(0, "/verif/lib")
@@ -27,6 +27,10 @@ rep.coverage["rule"] += ("; C (mode sync): the standard library's Mutex, RWMutex
     "atomic/lock/cond granularity within the bounds; oracles: never two holders (reader/writer exclusion), no lost update, every Lock/Wait/Do returns once it may (no blocked thread at "
     "the end), Wait returns only after all Done, Do's function ran exactly once and completely before any Do returns, Cond.Wait returns only after a Signal/Broadcast issued after it "
     "started waiting and exactly min(signals, waiters) / all waiters return")
+rep.coverage["rule"] += ("; D (mode value): llgo's own atomic.Value (value.go, byte-identical copy) on scheduler-aware pointer atomics: 2-3 threads of Load/Store/Swap/CompareAndSwap "
+    "over values {1,2} from an empty and from a pre-stored Value (multisets of thread programs), every interleaving at atomic-operation granularity within the preemption bound; "
+    "busy-waiting on an unchanged location is a blocking wait; every complete call/return history (plus a final Load) is checked for linearizability against a one-cell register with porcupine v1.3.0")
+rep.assumptions += ["part D: histories are memoised by their event sequence before porcupine is asked; values are small ints boxed by the host Go runtime"]
 # ---- parts E (atomics table) and F (go statements): llgo-compiled programs
 import re, glob, shutil
 sys.path.insert(0, os.path.dirname(os.path.abspath(__file__)))
